@@ -282,6 +282,25 @@ def run_case(case):
     plain.set_weights(weights)
     refs = [np.asarray(ref(tf.constant(x)), dtype=np.float32) for x in xs]
     plains = [np.asarray(plain(tf.constant(x)), dtype=np.float32) for x in xs]
+  if spec.get("pool"):
+    # same layer OBJECT called again on a different spatial extent (pooling layers have no weights, so this is
+    # legal): nothing computed for the first geometry may survive into the second call
+    shape2 = (2, g["H"] + 2, g["W"] + 1, g["c"])
+    x2 = common.tensor(shape2, "ramp", case["_seed"])
+    y2 = np.asarray(qlayer(tf.constant(x2)), dtype=np.float32)
+    q = quants[0]
+    stock2 = getattr(L, spec["stock"])(name="ref2", **kw)
+    if cls == "QAveragePooling2D":
+      area2 = float(np.prod(g["pool"]) if not isinstance(g["pool"], int) else g["pool"] * g["pool"])
+      r2 = (np.asarray(stock2(tf.constant(x2 * np.float32(area2))), dtype=np.float32) *
+            np.float32(np.asarray(q(1.0 / area2), dtype=np.float32))) if q is not None else np.asarray(stock2(tf.constant(x2)), dtype=np.float32)
+    else:
+      area2 = float(shape2[1] * shape2[2])
+      r2 = np.asarray(tf.reduce_sum(tf.constant(x2), axis=[1, 2]) * np.asarray(q(1.0 / area2), dtype=np.float32), dtype=np.float32) \
+          if q is not None else np.asarray(stock2(tf.constant(x2)), dtype=np.float32)
+    if activation is not None:
+      r2 = np.asarray(activation(tf.constant(r2)), dtype=np.float32)
+    xs, ys, refs, plains = xs + [x2], ys + [y2], refs + [r2], plains + [r2 + 1]
   differs = False
   for x, y, r, p in zip(xs, ys, refs, plains):
     if y.shape != r.shape:
